@@ -61,6 +61,7 @@ package composite
 
 //@ func parentController.callHook(pc, parent, observedChildren, related) (resp, err)
 //@   requires validPC(pc) && parent != nil
+//@   writes-assumed fresh
 //@   safety C13
 //@   let noMatch = pc.parentSelector != nil && !matchesLabelsOf(pc.parentSelector, parent)
 //@   let finalizing = pc.finalizeHook.IsEnabled() && (parent.GetDeletionTimestamp() != nil || noMatch)
